@@ -19,7 +19,7 @@ ECDSA_ALL = ["ecdsa-k256-sha256", "ecdsa-k256-sha512", "ecdsa-k256-sha3-256", "e
              "ecdsa-p256-sha3-256", "ecdsa-p256-sha256-det"]
 SCHNORR_ALL = ["bip340", "schnorr-k256-sha256", "schnorr-k256-sha256-neg", "schnorr-p256-sha3", "schnorr-pallas-sha256",
                "schnorr-ed25519-sha512le", "mina-main", "mina-test", "mina-rand"]
-BLS_QUICK = ["bls-short-basic", "bls-short-pop", "bls-long-aug"]
+BLS_QUICK = ["bls-short-basic", "bls-short-pop", "bls-long-aug", "bls-long-pop"]
 BLS_ALL = ["bls-short-basic", "bls-short-aug", "bls-short-pop", "bls-long-basic", "bls-long-aug", "bls-long-pop"]
 
 # rows every production trace must contain (the driver walks the full product; a shorter trace is a machinery error)
@@ -39,6 +39,8 @@ def key_of(row):
                                ":strict" if row.get("strict") else "")
     if a == "bagg":
         return "bagg:%s:n=%s:same=%s:%s" % (row.get("suite"), row.get("n"), row.get("same"), row.get("lab"))
+    if a == "ebound":
+        return "ebound:%s:off=%s" % (row.get("suite"), row.get("off"))
     if a == "construct":
         return "construct:%s:%s" % (row.get("suite"), row.get("what"))
     if a == "vector":
